@@ -177,17 +177,17 @@ def plan(prop, tier, seed):
             G.append([(name, f(S(), *a, **kw))])
     if prop == "C01":
         data(n(50, 600)); data(n(10, 80), with_close=True, updates=True); fam(n(20, 200), scen.window_session, "window"); data(n(3, 30), big_groups=True)
-        fam(n(12, 200), scen.deep_session, "deep"); fam(n(6, 60), scen.queue_full_session, "queue-full")
+        fam(n(12, 200), scen.deep_session, "deep"); fam(n(6, 60), scen.queue_full_session, "queue-full"); fam(n(10, 150), scen.renak_session, "renak")
     elif prop == "C02":
         data(n(40, 400)); data(n(12, 150), faults=False); fam(n(40, 500), scen.window_session, "window"); fam(n(25, 400), scen.refresh_session, "refresh"); fam(n(4, 40), scen.queue_full_session, "queue-full")
     elif prop == "C03":
-        data(n(50, 500), p_rel=0.5); data(n(20, 250), with_close=True, updates=True); data(n(5, 60), big_groups=True); fam(n(30, 400), scen.wrap_partial_session, "wrap-partial"); fam(n(4, 40), scen.queue_full_session, "queue-full"); fam(n(10, 150), scen.bad_group_session, "bad-groups")
+        data(n(50, 500), p_rel=0.5); data(n(20, 250), with_close=True, updates=True); data(n(5, 60), big_groups=True); fam(n(30, 400), scen.wrap_partial_session, "wrap-partial"); fam(n(8, 60), scen.queue_full_session, "queue-full", groups=True); fam(n(10, 150), scen.bad_group_session, "bad-groups")
     elif prop == "C04":
         data(n(25, 300))
         for _ in range(n(25, 400)):
             G.append(twin_replay(S()))
         fam(n(25, 400), scen.hs_replay_session, "hs-replay")
-        fam(n(12, 200), scen.deep_session, "deep")
+        fam(n(12, 200), scen.deep_session, "deep"); fam(n(20, 300), scen.renak_session, "renak")
     elif prop == "C05":
         for _ in range(n(80, 1500)):
             s = S()
@@ -270,7 +270,7 @@ def plan(prop, tier, seed):
 
 
 CORPUS_FOR = {
-    "C01": ["D01", "D13", "D15", "K16", "K17"], "C02": ["D13"], "C03": ["D02"], "C04": ["K17"], "C05": ["D03", "D13"], "C06": ["D06"], "C07": ["D04", "D05"], "C08": [],
+    "C01": ["D01", "D13", "D15", "K16", "K17", "K18"], "C02": ["D13"], "C03": ["D02"], "C04": ["K17", "K18"], "C05": ["D03", "D13"], "C06": ["D06"], "C07": ["D04", "D05"], "C08": [],
     "C09": ["D02", "D06", "D09"], "C10": ["D08"], "C11": [], "C12": [], "C13": [], "C14": ["D09", "F13"], "C15": ["D10", "D14"], "C16": [], "C17": ["D11", "D13"],
     "C18": ["D09", "D13"], "C19": ["D12"], "C20": [],
 }
